@@ -10,7 +10,7 @@ TABLES = [("callpaths", "semantic_p3/call_paths_p3"), ("status", "semantic_p3/st
 # open known findings: method call on the object returned by a method call; call of a returned module-level function; third
 # calling context of one call site; callback field called through self
 WITNESSES = ("method_chain", "returned_named_function", "three_contexts_of_one_call_site", "callback_field_called_in_method",
-             "import_module_attribute_call")
+             "import_module_attribute_call", "global_function_name_rebound")
 
 
 def with_call(p):
